@@ -27,6 +27,13 @@ class LasAppender:
         if not dest.seekable():
             raise TypeError("Expected the 'dest' to be a seekable file object")
         header = LasHeader.read_from(dest)
+        # The header is rewritten in place when the appender is closed: a header
+        # that would not be written back with the size it was read with
+        # (e.g. a WKT record that lacks its terminating NUL) cannot be updated;
+        # this is refused now, before anything is appended
+        header.write_to(
+            io.BytesIO(), ensure_same_size=True, encoding_errors=encoding_errors
+        )
         if laz_backend is None:
             laz_backend = [
                 bck for bck in LazBackend.detect_available() if bck.supports_append
